@@ -42,7 +42,7 @@ Section RunSpec.
     match cs with
     | [] => "OK"
     | x :: t =>
-        match call_of x with
+        match call_in ds x with
         | None => "BAD-CALL"
         | Some c =>
             let '(ds', r1) := step matchf applyf extractf projectf 0 ds c in
